@@ -57,3 +57,42 @@ PROPS['C08'] = dict(
     trusted_base=TRUSTED_COMMON,
     assumptions=["full 'accept'/'reject'/'needs timestamp' statements are false of the code for intervals on unrevealed referents (F5) and for identifiers without rev_reg_id (F4): delivered as _partial + _refuted theorems and recorded as known findings under C02/C08 (DESIGN §7)"],
 )
+
+PROPS['C16'] = dict(
+    lean_targets=['AnonModel.Props.C16'],
+    required_theorems=['C16_parse_print_parse', 'C16_parse_ok_iff_wellformed', 'C16_legacy_array', 'C16_legacy_meaning', 'C16_empty_forms',
+                       'C16_empty_is_unrestricted', 'C16_validate_v1', 'C16_validate_v2', 'C16_reject_multikey_object', 'C16_reject_unknown_operator'],
+    families=[dict(name='c16')],
+    default_dir='exact',
+    spec_is_model=['c16'],
+    fam_theorem={'c16': 'C16_parse_print_parse, C16_parse_ok_iff_wellformed, C16_legacy_array, C16_validate_v1/v2 (model = spec); c06.eval: C06_eval_iff_sat'},
+    rule="JSON values built from the WQL operator vocabulary, 28 tag names (metadata, attr::..::value/marker variants, junk, $-prefixed), mistyped operands (null, number, bool, arrays, nested arrays, objects), multi-key operator objects, legacy list-of-filters with null entries and empty objects, random nesting depth 0-3: parsed by serde (alone and inside a PresentationRequest), compared with the model's parse; random ASTs (incl. ones outside the parser's image) printed, their tag names collected, validated for request versions 1 and 2, whole-request structural validation; is_self_attested; evaluation of random ASTs against 5 filters x value maps (c06.eval). Independent oracle on every parsed value: parse(print(parse j)) = parse j on the implementation. distinct = distinct inputs",
+    trusted_base=TRUSTED_COMMON + ["serde_json presents objects as sorted unique-key maps (no preserve_order feature in Cargo.lock): the model parses association lists in the order given, the driver sorts keys"],
+)
+
+SL_BASE = ["IdealCL accumulator abstraction (DESIGN §4 iv): an accumulator / witness is its exponent-multiplicity vector over registry indices; distinct vectors are distinct group elements; a non-revocation proof for index k with witness w verifies against A iff A_k = 1 and w = A off k. Validated on every run against the real crate: accumulators compared as equivalence patterns of affine bytes, witness validity by building and verifying real presentations"]
+
+PROPS['C09'] = dict(
+    lean_targets=['AnonModel.Props.C09'],
+    required_theorems=['C09_bits_spec', 'C09_acc_invariant', 'C09_acc_path_independent', 'C09_update_never_errs', 'C09_noop_requests_ignored',
+                       'C09_timestamp_only_if_supplied', 'C09_ts_only_keeps_bits_acc', 'C09_issued_credential_embeds', 'C09_length_preserved'],
+    families=[dict(name='c09')],
+    default_dir='exact',
+    spec_is_model=['c09'],
+    fam_theorem={'c09': 'C09_bits_spec (bits = fold of the declarative per-index rule), C09_acc_invariant / C09_acc_path_independent (accumulator pattern)'},
+    rule="update histories on real registries of size 1-6 (real CL accumulators): 0-4 updates (every tenth run 5-24), issued/revoked sets drawn with nulls, empty sets, overlaps, repetitions, out-of-range indices (L, L+1.., 1000), timestamp supplied or not, timestamp-only updates, both initial modes, a JSON round trip of the list on every other step; compared exactly: bits and timestamp of every state, and the equivalence pattern of the accumulators (first state with an equal accumulator, affine bytes, infinity canonicalised). Independent oracles: update never modifies the list it starts from; an issued credential embeds the accumulator of the matching issue update (c10 family). distinct = distinct runs; non-trivial: all (each has at least the created list)",
+    trusted_base=TRUSTED_COMMON + SL_BASE,
+)
+
+PROPS['C10'] = dict(
+    lean_targets=['AnonModel.Props.C10'],
+    required_theorems=['C10_issuer_witness_valid', 'C10_update_preserves', 'C10_valid_unique', 'C10_revoked_no_witness', 'C10_earlier_lists_keep_verifying',
+                       'C10_scratch_valid_partial', 'C10_scratch_refuted_on_demand', 'C10_scratch_refuted_pos0', 'C10_issuer_witness_updated_valid'],
+    families=[dict(name='c10')],
+    default_dir='exact',
+    spec_is_model=['c10'],
+    fam_theorem={'c10': 'C10_issuer_witness_valid, C10_update_preserves, C10_revoked_no_witness, C10_scratch_valid_iff_by_default (model = spec for each derivation)'},
+    rule="registry runs (size 2-6, both modes, 1-4 updates) with 3-6 derivation queries each: from scratch at a state, incrementally from an earlier derived state (older->newer and newer->older), issuer witness of a credential issued against a state and its incremental update; indices incl. 0, L, L+1 (error paths). For each query: did the derivation succeed, does a real presentation built with the derived state verify against the list it is for (real prover + verifier), equivalence pattern of the witnesses (affine bytes), which state's accumulator the issued credential embeds; compared exactly with the model. Independent oracles: non-revoked index + successful derivation => verifies; revoked index => never verifies",
+    trusted_base=TRUSTED_COMMON + SL_BASE,
+    assumptions=["the property is false of the code for from-scratch states on issuance-on-demand registries and while position 0 is revoked (F12): C10_scratch_* _partial/_refuted theorems; recorded in known_findings.json (F12a, F12b) and reported as KNOWN-FINDING when reproduced"],
+)
